@@ -25,7 +25,7 @@ pub static DEF: CheckDef = CheckDef {
     id: "C06",
     level: "fault_enumeration",
     technique: "deterministic storage simulation: seeded operation histories on the real state manager with a crash-point callback in every write path; for each history every reached crash point and (thorough: every, quick: sampled) byte truncation of the record in flight is reopened and compared with a prefix-of-history model; plus crash-recover-continue cycles, death during recovery and injected I/O errors",
-    runs: (1500, 40000),
+    runs: (3000, 60000),
     generate,
     execute,
     shrink,
